@@ -494,6 +494,7 @@ class StageExecutor(ThreadPoolExecutor):
         self.w, self.stage = world, stage
         self.max_workers_cfg = max_workers
         self._cnt_lock = threading.Lock()
+        self._submit_lock = threading.Lock()
         self.outstanding = 0
         self.max_outstanding = 0
         self.submitted = 0
@@ -506,26 +507,28 @@ class StageExecutor(ThreadPoolExecutor):
         super().__init__(max_workers=max_workers, thread_name_prefix=f'vf-{stage}', initializer=init)
 
     def submit(self, fn, *args, **kwargs):
-        with self._cnt_lock:
-            self.outstanding += 1
-            self.submitted += 1
-            seq = self.submitted
-            if self.outstanding > self.max_outstanding:
-                self.max_outstanding = self.outstanding
-        self.w.log.add('exec.submit', stage_of=self.stage, seq=seq, outstanding=self.outstanding, task=type(fn).__name__)
+        # sequence number and enqueue are one atomic step, so seq order == queue order
+        with self._submit_lock:
+            with self._cnt_lock:
+                self.outstanding += 1
+                self.submitted += 1
+                seq = self.submitted
+                if self.outstanding > self.max_outstanding:
+                    self.max_outstanding = self.outstanding
+            self.w.log.add('exec.submit', stage_of=self.stage, seq=seq, outstanding=self.outstanding, task=type(fn).__name__)
 
-        def run(*a, **k):
-            self.w.log.add('exec.start', stage_of=self.stage, seq=seq, task=type(fn).__name__)
+            def run(*a, **k):
+                self.w.log.add('exec.start', stage_of=self.stage, seq=seq, task=type(fn).__name__)
+                try:
+                    return fn(*a, **k)
+                finally:
+                    with self._cnt_lock:
+                        self.outstanding -= 1
+                    self.w.log.add('exec.finish', stage_of=self.stage, seq=seq, task=type(fn).__name__)
+
             try:
-                return fn(*a, **k)
-            finally:
+                return super().submit(run, *args, **kwargs)
+            except BaseException:
                 with self._cnt_lock:
                     self.outstanding -= 1
-                self.w.log.add('exec.finish', stage_of=self.stage, seq=seq, task=type(fn).__name__)
-
-        try:
-            return super().submit(run, *args, **kwargs)
-        except BaseException:
-            with self._cnt_lock:
-                self.outstanding -= 1
-            raise
+                raise
